@@ -237,6 +237,18 @@ class Step(engine.Case):
                 f"ad_afqmc.wavefunctions.{k}.calc_full_green", f"ad_afqmc.wavefunctions.{k}._calc_overlap"]
 
     def conc(self, seed):
+        """seeded concrete instances INSIDE the claim: draws on which some constraint would be active (by the thresholds' definition, with a
+        margin) are skipped - on those the real code divides 0/0 and the whole-step identity is not claimed"""
+        import math
+        for k in range(40):
+            V = StepConc(seed + 7919 * k)
+            inp = {kk: np.vectorize(lambda z: complex(z).real, otypes=[object])(engine.to_py(v)) for kk, v in self.inputs(V).items()}
+            try:
+                ok = self._inactive(inp, math.exp(self.props[0].dt * float(inp["Es"][()])))
+            except Exception:
+                ok = False
+            if ok:
+                return StepConc(seed + 7919 * k)
         return StepConc(seed)
 
     def _trial_inputs(self, V):
